@@ -310,7 +310,12 @@ func (a *List) M__iadd__(other Object) (Object, error) {
 		a.Extend(b.Items)
 		return a, nil
 	}
-	return NotImplemented, nil
+	items, err := SequenceTuple(other)
+	if err != nil {
+		return nil, err
+	}
+	a.Extend(items)
+	return a, nil
 }
 
 func (l *List) M__mul__(other Object) (Object, error) {
